@@ -1,42 +1,69 @@
 """C08 — Totalistic rule numbering: correspondence generators and runners.
 
-Real cpl.totalistic_rule / cpl.TotalisticRule on 1D arrays (sizes 3, 5, 7), 2D Moore blocks (3x3, 5x5) and
-masked von Neumann blocks (r = 1, 2; np.ma.masked_array with the mask evolve2d builds), dtypes int32 and uint8,
-against Model/Totalistic.v.  ValueError is compared as a class (named by the property)."""
+Real cpl.totalistic_rule / cpl.TotalisticRule against Model/Totalistic.v on
+  * 1D arrays (sizes 1, 2, 3, 5, 7, 9), 2D Moore blocks (3x3, 5x5, 7x7) and masked von Neumann blocks (r = 1, 2, 3;
+    np.ma.masked_array with the mask evolve2d builds; the masked corners hold arbitrary colours);
+  * every integer dtype (int8/16/32/64, uint8/16/32/64) and bool (k = 2);
+  * the class with random (c, t), one object reused over neighbourhoods of different sizes (class_sequence), and the
+    class driven by cpl.evolve / cpl.evolve2d (r = 1, 2; Moore and von Neumann) against the plain-engine models
+    (Model/Evolve1D.v, Model/Evolve2D.v) with the totalistic model as the rule.
+ValueError is compared as a class (named by the property)."""
 import os
 import numpy as np
-from harness.driver import call_impl, cz, cnat, cN, cbool, czlist, clist, copt, cres
+from harness.driver import call_impl, cz, cnat, cN, cbool, czlist, cgrid, chist, clist, copt, cres
 
 ID = 'C08'
 COQ_IMPORTS = 'From CPL Require Import Model.Base Model.Totalistic Corr.C08.\nOpen Scope Z_scope.'
 if os.environ.get('VERIF_C08_STRICT'):
     # compare the "ood/..." buckets too (behaviour outside the property's domain; not part of the regular check)
     COQ_IMPORTS += '\nDefinition check_case := check_case_strict.'
-NONTRIVIAL_RULE = ('k in {2,3,4,5,10,16,36} x shapes {1D 3/5/7, Moore 3x3/5x5, masked von Neumann r=1/2} x dtypes '
-                   '{int32, uint8} x contents {all 0, all k-1, random} x rule numbers {0, 1, k^j, random, largest in '
-                   'range, smallest out of range, far out of range}; complete sweep of k=2, n=3 (8 contents x rules '
-                   '0..17) and of all sums for k=3, n=3; class_sequence: one TotalisticRule object called on 2-5 '
-                   'neighbourhoods of different sizes/forms, rule number placed below / between / above the bounds of '
-                   'the smallest and largest size, sizes ascending / descending / random; non-trivial = the call returned a digit or raised ValueError '
-                   'on a well-formed input (2<=k<=36, contents in 0..k-1); distinct = distinct case dicts')
+NONTRIVIAL_RULE = ('k in {2,3,4,5,10,16,36} x shapes {1D 1/2/3/5/7/9, Moore 3x3/5x5/7x7, masked von Neumann r=1/2/3} x '
+                   'dtypes {int8..int64, uint8..uint64, bool} x contents {all 0, all k-1, random} x rule numbers {0, 1, '
+                   'k^j, random, largest in range, smallest out of range, far out of range}; complete sweep of k=2, n=3 '
+                   '(8 contents x rules 0..17) and of all sums for k=3, n=3; dtype bucket with sums above 127 / 255; '
+                   'class calls with random (c, t); class_sequence: one TotalisticRule object on 2-5 neighbourhoods of '
+                   'different sizes/forms, rule number below / between / above the bounds of the smallest and largest '
+                   'size, sizes ascending / descending / random; evolve / evolve2d with TotalisticRule as apply_rule; '
+                   'non-trivial = every answer is a digit or ValueError on a well-formed input (2<=k<=36, contents in '
+                   '0..k-1); distinct = distinct case dicts')
 EXHAUSTIVE = {'quick': False, 'thorough': False}
 NOTES = ['k = 2, n = 3 enumerated completely (all contents, all rule numbers 0..17) in both tiers',
          'buckets ood/* (contents outside 0..k-1, k outside 2..36) lie outside the property: they are run and the '
-         'model computes them (Python string indexing from the end / IndexError; uint64 wrap for uint8 arrays; '
-         'ValueError of np.base_repr) but they are compared only with VERIF_C08_STRICT=1']
-ASSUMPTIONS = ['rule numbers are non-negative Python ints (N in the model); k is a Python int',
+         'model computes them (Python string indexing from the end / IndexError; uint64 wrap for unsigned arrays; '
+         'ValueError of np.base_repr) but they are compared only with VERIF_C08_STRICT=1',
+         'float arrays are outside the model: the code raises TypeError on every float neighbourhood (np.sum is a '
+         'float, a str cannot be indexed by it); see notes/agents/C08.md',
+         'k as a numpy scalar (bucket kscalar/*): accepted by the code only while the rule number fits the scalar\'s '
+         'dtype and the array is signed; sampled with int16/int32/int64 k, rule < 2^15, signed arrays']
+ASSUMPTIONS = ['rule numbers are non-negative Python ints (N in the model); k is a Python int (or a numpy int that '
+               'can hold the rule number)',
+               'neighbourhoods have an integer or bool dtype',
                'digit characters are modelled by their values: base_repr writes digits[v], int(ch, k) reads v back',
-               'np.sum of an int32 array is int64 and of a uint8 array is uint64 (no overflow below 2^63)',
-               'masked arrays: .size counts masked entries, np.sum skips them (checked here against numpy itself)']
+               'np.sum of a signed / bool array is int64 and of an unsigned array is uint64 (no overflow below 2^63)',
+               'masked arrays: .size counts masked entries, np.sum skips them (checked here against numpy itself)',
+               'the clause "TotalisticRule gives the same answers" rests on this correspondence alone: the model '
+               'defines the class call as the function call']
 
 KS = [2, 3, 4, 5, 10, 16, 36]
-SHAPES = [('1d', 3), ('1d', 5), ('1d', 7), ('moore', 1), ('moore', 2), ('vn', 1), ('vn', 2)]
-DTYPES = ['int32', 'uint8']
+SHAPES = [('1d', 1), ('1d', 2), ('1d', 3), ('1d', 5), ('1d', 7), ('1d', 9), ('moore', 1), ('moore', 2), ('moore', 3),
+          ('vn', 1), ('vn', 2), ('vn', 3)]
+SIGNED = ['int8', 'int16', 'int32', 'int64']
+UNSIGNED = ['uint8', 'uint16', 'uint32', 'uint64']
+DTYPES = SIGNED + UNSIGNED          # 'bool' is added where k = 2
+HEAVY = 30                           # shapes with more cells than this only for k <= 10 (Coq cost ~ digits^3)
+
+
+def _dtypes(k):
+    return DTYPES + (['bool'] if k == 2 else [])
 
 
 def _size(shape):
     kind, p = shape
     return p if kind == '1d' else (2 * p + 1) ** 2
+
+
+def _shapes(k):
+    return [s for s in SHAPES if _size(s) <= HEAVY or k <= 10]
 
 
 def _vn_mask(r):
@@ -50,9 +77,21 @@ def _vn_mask(r):
     return m
 
 
-def _case(kind, shape, dtype, cells, k, rule, cls):
-    return {'kind': kind, 'shape': list(shape), 'dtype': dtype, 'cells': [int(x) for x in cells], 'k': int(k),
-            'rule': int(rule), 'cls': bool(cls)}
+def _ct(rng, shape):
+    """the (c, t) arguments of a class call: what evolve / evolve2d would pass, at random"""
+    c = rng.randrange(60) if shape[0] == '1d' else [rng.randrange(60), rng.randrange(60)]
+    return c, rng.choice([1, 1, 2, 3, 7, 50, 1000])
+
+
+def _item(rng, shape, dtype, cells):
+    c, t = _ct(rng, shape)
+    return {'shape': list(shape), 'dtype': dtype, 'cells': [int(x) for x in cells], 'c': c, 't': t}
+
+
+def _case(rng, kind, shape, dtype, cells, k, rule, cls, ktype='int'):
+    d = _item(rng, shape, dtype, cells)
+    d.update({'kind': kind, 'op': 'one', 'k': int(k), 'rule': int(rule), 'cls': bool(cls), 'ktype': ktype})
+    return d
 
 
 def _contents(rng, n, k, which):
@@ -64,6 +103,10 @@ def _contents(rng, n, k, which):
         c = [0] * n
         c[rng.randrange(n)] = rng.randint(1, k - 1)
         return c
+    if which == 'corners':          # 2D: zero cross, non-zero corners (what a von Neumann mask hides)
+        side = int(round(n ** 0.5))
+        r = side // 2
+        return [rng.randint(1, k - 1) if abs(i - r) + abs(j - r) > r else 0 for i in range(side) for j in range(side)]
     return [rng.randint(0, k - 1) for _ in range(n)]
 
 
@@ -90,6 +133,9 @@ def _rule(rng, n, k, which):
     raise KeyError(which)
 
 
+RULE_KINDS = ['zero', 'one', 'kpow', 'random', 'random_short', 'max', 'min_out', 'far_out']
+
+
 def _sequences(rng, count):
     """class_sequence: one rule object, 2-5 calls on neighbourhoods of DIFFERENT sizes/forms.  The rule number is
     placed relative to the bounds k^W of the smallest and the largest size of the sequence; the order of the sizes
@@ -99,9 +145,8 @@ def _sequences(rng, count):
     orders = ['ascending', 'descending', 'random']
     for i in range(count):
         k = rng.choice([2, 2, 3, 3, 4, 5, 10, 16, 36])
-        pool = SHAPES if k <= 5 else [s for s in SHAPES if _size(s) <= 9]      # Coq cost of 25 cells with big k
+        pool = [s for s in SHAPES if _size(s) <= (49 if k <= 3 else 25 if k <= 5 else 9)]
         m = rng.randint(2, 5)
-        # distinct sizes first, then (if m is larger than the number of sizes) other forms of the same size
         by_size = {}
         for s in pool:
             by_size.setdefault(_size(s), []).append(s)
@@ -133,13 +178,37 @@ def _sequences(rng, count):
             rule = hi + rng.choice([0, 1, rng.randrange(hi)])
         else:
             rule = 0
-        seq = [{'shape': list(s), 'dtype': rng.choice(DTYPES),
-                'cells': _contents(rng, _size(s), k, rng.choice(['zeros', 'max', 'random', 'random', 'onehot']))}
+        seq = [_item(rng, s, rng.choice(_dtypes(k)),
+                     _contents(rng, _size(s), k, rng.choice(['zeros', 'max', 'random', 'random', 'onehot'])))
                for s in shapes]
         yield {'kind': 'class_sequence/%s/%s' % (place, order), 'op': 'seq', 'k': k, 'rule': rule, 'seq': seq}
 
 
-RULE_KINDS = ['zero', 'one', 'kpow', 'random', 'random_short', 'max', 'min_out', 'far_out']
+def _evolutions(rng, count):
+    """cpl.evolve / cpl.evolve2d with apply_rule = TotalisticRule(k, rule): rule numbers in range, cells in 0..k-1"""
+    for i in range(count):
+        k = rng.choice([2, 3, 3, 4, 5, 10])
+        dtype = rng.choice(_dtypes(k))
+        T = rng.randint(2, 4)
+        if i % 2 == 0:
+            r = rng.choice([1, 1, 2, 3])
+            N = rng.choice([2 * r + 1, 2 * r + 2, rng.randint(2 * r + 1, 12)])
+            n = 2 * r + 1
+            rule = _rule(rng, n, k, rng.choice(['random', 'random', 'max', 'kpow', 'random_short']))
+            init = [rng.randint(0, k - 1) for _ in range(N)]
+            yield {'kind': 'evolve/1d/r%d' % r, 'op': 'evolve1', 'k': k, 'rule': rule, 'r': r, 'dtype': dtype,
+                   'init': init, 'T': T}
+        else:
+            r = rng.choice([1, 1, 2]) if k <= 5 else 1
+            nb = rng.choice(['Moore', 'von Neumann'])
+            R, C = rng.randint(2 * r + 1, 2 * r + 3), rng.randint(2 * r + 1, 2 * r + 3)
+            n = (2 * r + 1) ** 2
+            rule = _rule(rng, n, k, rng.choice(['random', 'random', 'max', 'kpow', 'random_short']))
+            if T > 3:
+                T = 3
+            init = [[rng.randint(0, k - 1) for _ in range(C)] for _ in range(R)]
+            yield {'kind': 'evolve/2d/%s/r%d' % (nb.replace(' ', ''), r), 'op': 'evolve2', 'k': k, 'rule': rule, 'r': r,
+                   'nbhd': nb, 'dtype': dtype, 'init': init, 'T': T}
 
 
 def generate(rng, tier):
@@ -148,61 +217,92 @@ def generate(rng, tier):
     for v in range(8):
         cells = [(v >> 2) & 1, (v >> 1) & 1, v & 1]
         for rule in range(18):
-            yield _case('sweep/k2n3', ('1d', 3), rng.choice(DTYPES), cells, 2, rule, rng.random() < 0.3)
+            yield _case(rng, 'sweep/k2n3', ('1d', 3), rng.choice(_dtypes(2)), cells, 2, rule, rng.random() < 0.3)
     # every sum 0..6 for k = 3, n = 3 on rule 777 and on the digits-all-distinct rule 0120120 (base 3)
     for a in range(3):
         for b in range(3):
             for c in range(3):
                 for rule in (777, int('0120120', 3), 3 ** 7 - 1):
-                    yield _case('sweep/k3n3', ('1d', 3), 'int32', [a, b, c], 3, rule, False)
-    # the grid of the design (shuffled: the k = 36, 5x5 cases cost Coq ~0.3 s each and the driver cuts the case
-    # list into consecutive shards that are checked in parallel)
+                    yield _case(rng, 'sweep/k3n3', ('1d', 3), 'int32', [a, b, c], 3, rule, False)
+    # the grid of the design (shuffled: the big cases cost Coq up to ~1 s each and the driver cuts the case
+    # list into consecutive shards that are checked in parallel); the dtype cycles through all of them
     grid = []
+    j = 0
     for _ in range(reps):
         for k in KS:
-            for shape in SHAPES:
+            for shape in _shapes(k):
                 n = _size(shape)
-                for dtype in DTYPES:
-                    for cont in ('zeros', 'max', 'random', 'random'):
-                        for rk in RULE_KINDS:
-                            cells = _contents(rng, n, k, cont)
-                            rule = _rule(rng, n, k, rk)
-                            grid.append(_case('%s/%s' % (shape[0], rk), shape, dtype, cells, k, rule,
-                                              rng.random() < 0.35))
+                for cont in ('zeros', 'max', 'random', 'random'):
+                    for rk in RULE_KINDS:
+                        dts = _dtypes(k)
+                        dtype = dts[j % len(dts)]
+                        j += 1
+                        cells = _contents(rng, n, k, cont)
+                        rule = _rule(rng, n, k, rk)
+                        grid.append(_case(rng, '%s/%s' % (shape[0], rk), shape, dtype, cells, k, rule,
+                                          rng.random() < 0.4))
+    # every dtype with the largest sums: 8-bit data summing above 127 / 255, both call forms, plain and masked
+    # (masked: all cells k-1, and non-zero corners around a zero cross)
+    for _ in range(reps):
+        for k in KS:
+            for dtype in _dtypes(k):
+                for shape in (('1d', 9), ('moore', 2), ('vn', 2), ('vn', 1)):
+                    n = _size(shape)
+                    cont = 'max' if shape[0] != 'vn' else rng.choice(['max', 'corners', 'corners'])
+                    cells = _contents(rng, n, k, cont)
+                    rule = _rule(rng, n, k, rng.choice(['random', 'max', 'random']))
+                    grid.append(_case(rng, 'dtype/%s' % dtype, shape, dtype, cells, k, rule, rng.random() < 0.6))
+        # a few of the biggest: 49 cells, k = 16 / 36
+        for k in (16, 36):
+            for shape in (('moore', 3), ('vn', 3)):
+                dtype = rng.choice(['int8', 'uint8'])
+                grid.append(_case(rng, 'dtype/%s' % dtype, shape, dtype, _contents(rng, 49, k, 'max'), k,
+                                  _rule(rng, 49, k, 'max'), rng.random() < 0.6))
     rng.shuffle(grid)
     for c in grid:
         yield c
     # random extra: other k in 2..36, one-hot contents
     for _ in range(150 * reps):
         k = rng.randint(2, 36)
-        shape = rng.choice(SHAPES)
+        shape = rng.choice(_shapes(k))
         n = _size(shape)
         cells = _contents(rng, n, k, rng.choice(['onehot', 'random']))
         rule = _rule(rng, n, k, rng.choice(RULE_KINDS))
-        yield _case('anyk/%s' % shape[0], shape, rng.choice(DTYPES), cells, k, rule, rng.random() < 0.35)
+        yield _case(rng, 'anyk/%s' % shape[0], shape, rng.choice(_dtypes(k)), cells, k, rule, rng.random() < 0.4)
+    # k given as a numpy integer scalar (accepted while the rule number fits its dtype and the array is signed)
+    for _ in range(60 * reps):
+        k = rng.choice(KS)
+        shape = rng.choice(_shapes(k))
+        n = _size(shape)
+        rule = min(_rule(rng, n, k, rng.choice(['random_short', 'one', 'kpow', 'zero'])), rng.randrange(2 ** 15))
+        yield _case(rng, 'kscalar', shape, rng.choice(SIGNED), _contents(rng, n, k, 'random'), k, rule,
+                    rng.random() < 0.4, ktype=rng.choice(['int16', 'int32', 'int64']))
     # ONE TotalisticRule object reused on neighbourhoods of different sizes / forms
     for c in _sequences(rng, 200 * reps):
+        yield c
+    # the class as apply_rule of evolve / evolve2d
+    for c in _evolutions(rng, 160 * reps):
         yield c
     # outside the quantified domain (still modelled): contents above k-1 / negative, k outside 2..36
     for _ in range(40 * reps):
         k = rng.choice([2, 3, 4, 10])
-        shape = rng.choice(SHAPES)
+        shape = rng.choice([s for s in SHAPES if _size(s) <= 25])
         n = _size(shape)
         dtype = rng.choice(DTYPES)
-        lo = 0 if dtype == 'uint8' else -2
+        lo = 0 if dtype in UNSIGNED else -2
         cells = [rng.randint(lo, 2 * k) for _ in range(n)]
-        yield _case('ood/contents', shape, dtype, cells, k, _rule(rng, n, k, rng.choice(['random', 'max', 'one'])),
+        yield _case(rng, 'ood/contents', shape, dtype, cells, k, _rule(rng, n, k, rng.choice(['random', 'max', 'one'])),
                     rng.random() < 0.3)
     for k in (0, 1, 37, 40, 100):
         for shape in (('1d', 3), ('vn', 1)):
             n = _size(shape)
             for rule in (0, 5, 10 ** 9):
-                yield _case('ood/base', shape, rng.choice(DTYPES), [0] * n, k, rule, rng.random() < 0.3)
+                yield _case(rng, 'ood/base', shape, rng.choice(DTYPES), [0] * n, k, rule, rng.random() < 0.3)
 
 
 def _array(c):
     kind, p = c['shape']
-    a = np.array(c['cells'], dtype=getattr(np, c['dtype']))
+    a = np.array(c['cells'], dtype=getattr(np, c['dtype'] if c['dtype'] != 'bool' else 'bool_'))
     if kind == '1d':
         return a
     a = a.reshape(2 * p + 1, 2 * p + 1)
@@ -211,20 +311,37 @@ def _array(c):
     return np.ma.masked_array(a, _vn_mask(p))      # as evolve2d's _get_neighbourhood does
 
 
+def _c_arg(it):
+    c = it.get('c', 0)
+    return tuple(c) if isinstance(c, list) else c
+
+
 def run_impl(c):
     import cellpylib as cpl
-    if c.get('op') == 'seq':
+    op = c.get('op', 'one')
+    if op == 'seq':
         arrays = [_array(it) for it in c['seq']]
         made = call_impl(lambda: cpl.TotalisticRule(c['k'], c['rule']))
         if made[0] != 'ok':
             return [list(made)] * len(arrays)
         obj = made[1]                               # ONE object for the whole sequence
-        return [list(call_impl(lambda: int(obj(a, i, 1)))) for i, a in enumerate(arrays)]
+        return [list(call_impl(lambda: int(obj(a, _c_arg(it), it.get('t', 1)))))
+                for it, a in zip(c['seq'], arrays)]
+    if op == 'evolve1':
+        init = np.array([c['init']], dtype=getattr(np, c['dtype'] if c['dtype'] != 'bool' else 'bool_'))
+        return list(call_impl(lambda: cpl.evolve(init, timesteps=c['T'], apply_rule=cpl.TotalisticRule(c['k'], c['rule']),
+                                                 r=c['r']).astype(np.int64).tolist()))
+    if op == 'evolve2':
+        init = np.array([c['init']], dtype=getattr(np, c['dtype'] if c['dtype'] != 'bool' else 'bool_'))
+        return list(call_impl(lambda: cpl.evolve2d(init, timesteps=c['T'],
+                                                   apply_rule=cpl.TotalisticRule(c['k'], c['rule']), r=c['r'],
+                                                   neighbourhood=c['nbhd']).astype(np.int64).tolist()))
     arr = _array(c)
+    k = c['k'] if c.get('ktype', 'int') == 'int' else getattr(np, c['ktype'])(c['k'])
     if c['cls']:
-        r = call_impl(lambda: int(cpl.TotalisticRule(c['k'], c['rule'])(arr, (0, 0), 1)))
+        r = call_impl(lambda: int(cpl.TotalisticRule(k, c['rule'])(arr, _c_arg(c), c.get('t', 1))))
     else:
-        r = call_impl(lambda: int(cpl.totalistic_rule(arr, c['k'], c['rule'])))
+        r = call_impl(lambda: int(cpl.totalistic_rule(arr, k, c['rule'])))
     return list(r)
 
 
@@ -245,66 +362,75 @@ def cNbig(n, chunk=512):
     return '(%s)%%N' % t
 
 
-def _mask_terms(shape):
-    kind, p = shape
+def _item_term(it):
+    kind, p = it['shape']
     if kind == 'vn':
-        return ('(Some %s)' % clist([bool(x) for x in _vn_mask(p).ravel()], cbool), '(Some %s)' % cnat(p))
-    return 'None', 'None'
+        mask = '(Some %s)' % clist([bool(x) for x in _vn_mask(p).ravel()], cbool)
+        vn = '(Some %s)' % cnat(p)
+    else:
+        mask, vn = 'None', 'None'
+    c = it.get('c', 0)
+    c0 = c[0] if isinstance(c, list) else c
+    return '(Item %s %s %s %s %s %s)' % (cbool(it['dtype'] in UNSIGNED), czlist(it['cells']), mask, vn, cz(c0),
+                                         cnat(it.get('t', 1)))
 
 
 def to_coq(c, obs):
-    if c.get('op') == 'seq':
-        items = []
-        for it in c['seq']:
-            mask, vn = _mask_terms(it['shape'])
-            items.append('(Item %s %s %s %s)' % (cbool(it['dtype'] == 'uint8'), czlist(it['cells']), mask, vn))
-        return '(CSeq %s %s [%s] %s)' % (cN(c['k']), cNbig(c['rule']), '; '.join(items),
+    op = c.get('op', 'one')
+    if op == 'seq':
+        return '(CSeq %s %s [%s] %s)' % (cN(c['k']), cNbig(c['rule']), '; '.join(_item_term(it) for it in c['seq']),
                                          clist(obs, lambda o: cres(o, cz)))
-    mask, vn = _mask_terms(c['shape'])
-    return '(CTot %s %s %s %s %s %s %s %s)' % (cbool(c['cls']), cbool(c['dtype'] == 'uint8'), czlist(c['cells']),
-                                             mask, vn, cN(c['k']), cNbig(c['rule']), cres(obs, cz))
+    if op == 'evolve1':
+        return '(CEvolve1 %s %s %s %s %s %s)' % (cN(c['k']), cNbig(c['rule']), cnat(c['r']), czlist(c['init']),
+                                                 cnat(c['T']), cres(obs, cgrid))
+    if op == 'evolve2':
+        return '(CEvolve2 %s %s %s %s %s %s %s)' % (cN(c['k']), cNbig(c['rule']), cnat(c['r']),
+                                                    cbool(c['nbhd'] == 'von Neumann'), cgrid(c['init']), cnat(c['T']),
+                                                    cres(obs, chist))
+    return '(CTot %s %s %s %s %s)' % (cbool(c['cls']), cN(c['k']), cNbig(c['rule']), _item_term(c), cres(obs, cz))
+
+
+def _cells_of(c):
+    op = c.get('op', 'one')
+    if op == 'seq':
+        return [x for it in c['seq'] for x in it['cells']]
+    if op == 'evolve1':
+        return c['init']
+    if op == 'evolve2':
+        return [x for row in c['init'] for x in row]
+    return c['cells']
 
 
 def _in_domain(c):
-    if c.get('op') == 'seq':
-        return 2 <= c['k'] <= 36 and all(0 <= x <= c['k'] - 1 for it in c['seq'] for x in it['cells'])
-    return 2 <= c['k'] <= 36 and all(0 <= x <= c['k'] - 1 for x in c['cells'])
+    return 2 <= c['k'] <= 36 and all(0 <= x <= c['k'] - 1 for x in _cells_of(c))
 
 
 def nontrivial(c, obs):
-    if c.get('op') == 'seq':
+    op = c.get('op', 'one')
+    if op == 'seq':
         return _in_domain(c) and all(o[0] == 'ok' or o[1] == 'ValueError' for o in obs)
     return _in_domain(c) and (obs[0] == 'ok' or obs[1] == 'ValueError')
 
 
-def oracle(c, obs):
-    """The property itself, evaluated on the implementation's answer: (rule // k**s) % k, ValueError iff the rule
-    number needs more than size*(k-1)+1 digits; for a sequence, on every call separately."""
-    if not _in_domain(c):
-        return None
-    if c.get('op') == 'seq':
-        if len(obs) != len(c['seq']):
-            return 'number of answers differs from the number of calls'
-        for i, (it, o) in enumerate(zip(c['seq'], obs)):
-            msg = oracle(dict(it, k=c['k'], rule=c['rule']), o)
-            if msg:
-                return 'call %d of the same TotalisticRule object: %s' % (i, msg)
-        return None
-    k, rule = c['k'], c['rule']
-    kind, p = c['shape']
-    n = len(c['cells'])
+def _digit(k, rule, s):
+    return (rule // k ** s) % k
+
+
+def _oracle_one(k, rule, it, obs):
+    kind, p = it['shape']
+    n = len(it['cells'])
     if kind == 'vn':
         m = _vn_mask(p).ravel()
-        s = sum(x for x, b in zip(c['cells'], m) if not b)
+        s = sum(x for x, b in zip(it['cells'], m) if not b)
     else:
-        s = sum(c['cells'])
+        s = sum(it['cells'])
     if rule >= k ** (n * (k - 1) + 1):
         if obs[0] != 'exc' or obs[1] != 'ValueError':
             return 'rule number needs more than n(k-1)+1 digits: expected ValueError'
         return None
     if obs[0] != 'ok':
         return 'rule number in range: expected a digit, got %s' % obs[1]
-    want = (rule // k ** s) % k
+    want = _digit(k, rule, s)
     if obs[1] != want:
         return 'expected (rule // k**s) %% k = %d with s = %d' % (want, s)
     if not 0 <= obs[1] <= k - 1:
@@ -312,22 +438,74 @@ def oracle(c, obs):
     return None
 
 
+def oracle(c, obs):
+    """The property itself, evaluated on the implementation's answer: (rule // k**s) % k, ValueError iff the rule
+    number needs more than size*(k-1)+1 digits; for a sequence on every call separately; for evolve / evolve2d the
+    closed form applied cell by cell on the ring / torus (rule numbers there are in range)."""
+    if not _in_domain(c):
+        return None
+    op = c.get('op', 'one')
+    k, rule = c['k'], c['rule']
+    if op == 'seq':
+        if len(obs) != len(c['seq']):
+            return 'number of answers differs from the number of calls'
+        for i, (it, o) in enumerate(zip(c['seq'], obs)):
+            msg = _oracle_one(k, rule, it, o)
+            if msg:
+                return 'call %d of the same TotalisticRule object: %s' % (i, msg)
+        return None
+    if op == 'evolve1':
+        if obs[0] != 'ok':
+            return 'evolve raised %s' % obs[1]
+        rows, r = [c['init']], c['r']
+        for _ in range(c['T'] - 1):
+            cur = rows[-1]
+            N = len(cur)
+            # the window of evolve: N >= 2r+1 here, so it is the ring neighbourhood
+            rows.append([_digit(k, rule, sum(cur[(i + d) % N] for d in range(-r, r + 1))) for i in range(N)])
+        return None if obs[1] == rows else 'evolve with TotalisticRule differs from the digit formula on the ring'
+    if op == 'evolve2':
+        if obs[0] != 'ok':
+            return 'evolve2d raised %s' % obs[1]
+        grids, r = [c['init']], c['r']
+        vn = c['nbhd'] == 'von Neumann'
+        for _ in range(c['T'] - 1):
+            g = grids[-1]
+            R, C = len(g), len(g[0])
+            grids.append([[_digit(k, rule, sum(g[(i + a) % R][(j + b) % C] for a in range(-r, r + 1)
+                                               for b in range(-r, r + 1) if not vn or abs(a) + abs(b) <= r))
+                           for j in range(C)] for i in range(R)])
+        return None if obs[1] == grids else 'evolve2d with TotalisticRule differs from the digit formula on the torus'
+    return _oracle_one(k, rule, c, obs)
+
+
 def shrink(c):
-    if c.get('op') == 'seq':
+    op = c.get('op', 'one')
+    if op == 'seq':
         seq = c['seq']
         if len(seq) > 2:
             for i in range(len(seq)):
                 yield dict(c, seq=seq[:i] + seq[i + 1:])
         for i, it in enumerate(seq):
-            if it['dtype'] == 'uint8':
+            if it['dtype'] != 'int32':
                 yield dict(c, seq=seq[:i] + [dict(it, dtype='int32')] + seq[i + 1:])
             if any(it['cells']):
                 yield dict(c, seq=seq[:i] + [dict(it, cells=[0] * len(it['cells']))] + seq[i + 1:])
         return
+    if op in ('evolve1', 'evolve2'):
+        if c['T'] > 2:
+            yield dict(c, T=2)
+        if c['dtype'] != 'int32':
+            yield dict(c, dtype='int32')
+        return
     if c['cls']:
         yield dict(c, cls=False)
-    if c['dtype'] == 'uint8':
+    if c.get('ktype', 'int') != 'int':
+        yield dict(c, ktype='int')
+    if c['dtype'] != 'int32':
         yield dict(c, dtype='int32')
+    if c.get('t', 1) != 1 or c.get('c', 0) not in (0, [0, 0]):
+        yield dict(c, t=1, c=0 if c['shape'][0] == '1d' else [0, 0])
     kind, p = c['shape']
     k = c['k']
     if kind != '1d' or p > 3:
@@ -336,7 +514,7 @@ def shrink(c):
         # keep the rule number on the same side of the new bound
         new_top = k ** (3 * (k - 1) + 1)
         rule = c['rule'] % new_top if c['rule'] < k ** W_old else new_top + c['rule'] % new_top
-        yield dict(c, shape=['1d', 3], cells=c['cells'][:3], rule=rule)
+        yield dict(c, shape=['1d', 3], cells=c['cells'][:3], rule=rule, c=0)
     if any(c['cells']):
         yield dict(c, cells=[0] * len(c['cells']))
         cells = list(c['cells'])
